@@ -12,6 +12,14 @@ open CaddyModel.C14
 #print axioms tick_keeps_invariant
 #print axioms reachable_invariant_with_ticks
 #print axioms recovery_with_runtime_renewal
+-- the CA on certmagic.FileStorage: six file operations per Store, a fault at any of them
+#print axioms fileStore_atomic
+#print axioms wp_sound_fs
+#print axioms wpn_sound_fs
+#print axioms fs_interrupted_startup_keeps_invariant
+#print axioms fs_reachable_invariant
+#print axioms recovery_on_file_storage
+#print axioms recovery_after_any_single_file_fault
 -- config autosave
 #print axioms autosave_always_complete
 #print axioms autosave_latest_after_return
@@ -30,3 +38,4 @@ open CaddyModel.C14
 #print axioms provision_alone_after_interrupted_renewal_mismatched_old_code
 #print axioms ca_write_order_matches_source
 #print axioms autosave_program_matches_source
+#print axioms inPlace_store_not_atomic
